@@ -373,11 +373,33 @@ func buildConstTables(pkg *ssa.Package) map[*ssa.Global]*constTable {
 			}
 			continue
 		}
+		tabPath := best
 		if _, ok := mk.(*ssa.MakeMap); !ok {
-			continue
+			// a table built by a function of its own: var ops = buildOps() / numericOperators[int]() -- a function
+			// without parameters (or called with constants) whose only path makes a map, fills it and returns it
+			call, isCall := mk.(*ssa.Call)
+			if !isCall || len(call.Call.Args) != 0 {
+				continue
+			}
+			builder := call.Call.StaticCallee()
+			if builder == nil || len(builder.Blocks) == 0 || funcHasLoop(builder) || builder.Signature.Results().Len() != 1 {
+				continue
+			}
+			bw := &pathWalker{maxPaths: 8}
+			bw.noTables = true
+			bw.walk(builder)
+			if bw.overflow || len(bw.paths) != 1 || bw.paths[0].end != "return" || len(bw.paths[0].results) != 1 {
+				continue
+			}
+			tabPath = bw.paths[0]
+			mk = tabPath.resolve(tabPath.results[0])
+			if _, ok := mk.(*ssa.MakeMap); !ok {
+				continue
+			}
 		}
-		t := &constTable{global: g, stores: best.stores, valType: g.Type().(*types.Pointer).Elem().Underlying().(*types.Map).Elem()}
+		t := &constTable{global: g, stores: tabPath.stores, valType: g.Type().(*types.Pointer).Elem().Underlying().(*types.Map).Elem()}
 		ok := true
+		best := tabPath
 		for _, ev := range best.events {
 			mu, isMU := ev.(*ssa.MapUpdate)
 			if !isMU || best.resolve(mu.Map) != mk {
